@@ -66,19 +66,24 @@ def EXHAUSTIVE(tier):
 
 
 def thresholds(tier):
-    if tier == "thorough":
-        return {"tuples": 50000, "static_ok": 45000, "eager_ok": 40000, "builder_ok": 40000, "builder-untyped_ok": 40000,
-                "compared_3way": 40000, "rule_sibling": 20000, "rule_default": 10000, "static_castlike": 20000,
-                "builder_castlike": 20000, "cache_entries_scanned": 15000, "cache_shared_entries": 4000,
-                "distinct_nontrivial": 120,
-                "anchor:onnxscript._internal.autocast:cast_inputs": 80000,
-                "anchor:onnxscript._internal.builder:GraphBuilder._get_or_create_constant": 80000}
-    return {"tuples": 9000, "static_ok": 8000, "eager_ok": 7000, "builder_ok": 7000, "builder-untyped_ok": 7000,
-            "compared_3way": 7000, "rule_sibling": 4000, "rule_default": 2000, "static_castlike": 4000,
-            "builder_castlike": 4000, "cache_entries_scanned": 3000, "cache_shared_entries": 800,
-            "distinct_nontrivial": 100,
-            "anchor:onnxscript._internal.autocast:cast_inputs": 15000,
-            "anchor:onnxscript._internal.builder:GraphBuilder._get_or_create_constant": 15000}
+    # <= 1/5 of what the unchanged tree gives at the quick tier (42386 tuples); the thorough tier walks 4.98x as much
+    base = {"tuples": 8000, "schemas_driven": 70, "compared_3way": 8000, "rule_sibling": 4500, "rule_default": 3800,
+            "static_castlike": 4500, "static_plain_constant": 3800, "builder_castlike": 4500,
+            "cache_entries_scanned": 5000, "cache_shared_entries": 2500,
+            "value_checked_against_rule": 30000, "value_checked_pairwise": 2600,
+            "anchor:onnxscript._internal.autocast:cast_inputs": 16000,
+            "anchor:onnxscript._internal.converter:Converter._emit_const": 8000,
+            "anchor:onnxscript._internal.tape_builder:BuilderBase._cast_inputs": 20000,
+            "anchor:onnxscript._internal.builder:GraphBuilder._get_or_create_constant": 16000}
+    for fe in FRONTENDS:
+        base[fe + "_ok"] = 8000
+        # a front end that starts refusing a whole class of literals must not read as "held"
+        for cls, n in (("int", 2400), ("float", 3400), ("bool", 800), ("list-int", 750), ("list-float", 750)):
+            base[f"{fe}_ok_{cls}"] = n
+    k = 4 if tier == "thorough" else 1
+    th = {e: n * k for e, n in base.items()}
+    th["distinct_nontrivial"] = 130 if tier == "thorough" else 100
+    return th
 
 
 def cases(tier, seed):
@@ -204,7 +209,7 @@ def _static_convert(src):
             pass
 
 
-def _static_read(fp, tids, kmap, pdt, ev):
+def _static_read(fp, tids, kmap, pdt, ev, version):
     """Read the operand of every statement back from the emitted function."""
     from onnx import numpy_helper
 
@@ -247,6 +252,8 @@ def _static_read(fp, tids, kmap, pdt, ev):
                 out[tid] = ("unobserved", f"CastLike({p.input[0]}, {p.input[1]}) not of the form CastLike(Constant, parameter)")
                 continue
             _hit(ev, "static_castlike")
+            if version < 15:
+                _hit(ev, "static_castlike_emitted_below_opset15")   # CastLike exists since opset 15 (a C02 matter, not judged here)
             if not isinstance(tgt, int):
                 out[tid] = ("ok", f"other:{tgt}", None, None)
                 continue
@@ -278,7 +285,7 @@ def _static_run(version, name, attrs, stmts, params, need_seq, kmap, pdt, ev, de
             out.update(_static_run(version, name, attrs, g, params, need_seq, kmap, pdt, ev, depth + 1))
         return out
     _hit(ev, "static_functions_converted")
-    return _static_read(fp, [s[0] for s in stmts], kmap, pdt, ev)
+    return _static_read(fp, [s[0] for s in stmts], kmap, pdt, ev, version)
 
 
 # ================================================================ eager front end
@@ -606,6 +613,7 @@ def _judge(name, since, version, t, alias_tids, acc):
         o = t["obs"].get(fe, ("unobserved", "not driven"))
         if o[0] == "ok":
             _hit(ev, fe + "_ok")
+            _hit(ev, f"{fe}_ok_{G.lit_class(val)}")
             oks[fe] = o
         elif o[0] == "refused":
             _hit(ev, fe + "_refused")
